@@ -176,14 +176,20 @@ class Sampler:
         """
         return self.memory.sample(batch_size, beta)
 
-    def sample_n_step(self, idxs: Any) -> ExperiencesType:
+    def sample_n_step(self, idxs: Any, return_idx: bool = False) -> ExperiencesType:
         """Sample a batch of experiences from the n-step replay buffer.
 
-        :param idxs: Indices to sample from
+        :param idxs: Indices to sample from, or a batch size when the n-step buffer
+            is the main memory of the training loop
         :type idxs: Any
+        :param return_idx: Return the sampled indices (only with a batch size)
+        :type return_idx: bool
         :return: Sampled batch of experiences
         :rtype: TensorDict
         """
+        if isinstance(idxs, int):
+            return self.memory.sample(idxs, return_idx)
+
         return self.memory.sample_from_indices(idxs)
 
     @classmethod
